@@ -82,8 +82,8 @@ CLAIMED = {
         text=("proof, partial: proved — the coded chemical potential depends on densities only; the species rows of the Newton system are the identity "
               "(mu_i+(A lam)_i)/kT = sum(N')/sum(N) - N'_i/N_i; a fixed point of the iteration is exactly a state with mu = -(A lam); such a state balances every "
               "reaction (A^T nu = 0 => nu.mu = 0) and hence satisfies the Saha / Guldberg-Waage ratios. NOT proved: that the floating-point iteration reaches "
-              "the fixed point for every input (the stopping rule looks at the most abundant species only); the residual of every un-warned returned composition "
-              "is tested at the property's floors (1e-8 kT above x=1e-5, 1e-4 down to 1e-7) with mu evaluated by the extracted model kernels."),
+              "the fixed point for every input (the stopping rule bounds only the last Newton step of the resolved species); the residual of every un-warned returned composition "
+              "is tested at the floor the stopping rule resolves (1e-8 kT above x=1e-5, 1e-6 down to 1e-7) with mu evaluated by the extracted model kernels."),
         note=("Trusted: as C02; the reference-energy / Stewart-Pyatt model RefEnergy.v is hand-written and tied by recorded E0/dE/mu; least-squares projection "
               "in numpy for the tested part."),
         ref="§3-C01"),
@@ -97,6 +97,32 @@ CLAIMED = {
         note=("Trusted: Coq kernel (closed under the global context); hand-written Retry.v tied by replaying recorded stopping quantities (hook) incl. NaN cases "
               "and small max_iter; extraction."),
         ref="§3-C06"),
+    "C09": dict(
+        technique="Coq theorems over R about kernels regenerated from mixture.py (density, species enthalpies, enthalpy) + reference-energy model tied by recorded iterations + independent thermodynamic oracle",
+        text=("proof (formulae full; chain recursion by model + correspondence): the regenerated density kernel is sum n_i M_i / N_A; species enthalpies are "
+              "(U_i(T,dE_i)+E0_i+kT)/(M_i/N_A); the mixture enthalpy is sum n_i h_i / rho minus the reference constant N_A E0_min/M_min, so enthalpy differences "
+              "between states with the same constant are those of the independent formula (theorem; sameness of the constant checked per pair); the reference-energy "
+              "model implements 'neutral atoms 0, molecules -D, each positive ion = previous listed stage + its IE - its lowering, each negative ion = next stage - "
+              "own IE + own lowering' (theorems about the hand model, which is tied to the code by recorded E0/dE/mu and tested against an independent chain oracle); "
+              "heat capacity = centred difference (C03 effect summary + comparison with fresh mixtures)."),
+        note=("Trusted: Coq kernel; Reals axioms as printed; translator; RefEnergy.v hand-written (declarative: nearest listed stage; distinct (stoichiometry, charge) "
+              "pairs) tied by the hook; composition / E0 / dE enter the kernels as parameters (freshness: C03)."),
+        ref="§3-C09"),
+    "C04": dict(
+        technique="Coq theorems (b linear in x0, scale invariance of densities and chemical potentials) + generator check that x0 is read only for element totals + tested pairs of equivalent x0",
+        text=("proof, partial: proved — the element totals are 1e24*sum c_ik x0_i and scale with x0; x0 enters the linear system only through them (and the code reads "
+              "x0 nowhere else: syntactic check on every run); scaling all particle numbers leaves densities and chemical potentials unchanged and scales constraint "
+              "totals, so fixed points for c*b are c times those for b with the same densities. NOT proved: uniqueness of the fixed point / that both runs converge to "
+              "it; equivalent x0 (scaled, arbitrary single-element x0, molecule redistributed to its atoms) are compared on all outputs on the implementation."),
+        note="Trusted: as C02; effects.py syntactic check; tolerances follow the solver's resolution (species to 1e-6+1e-10/x, scalars 1e-5, Cp and thermal conductivity 1e-4).",
+        ref="§3-C04"),
+    "C05": dict(
+        technique="Coq theorems of permutation invariance of every species sum + tested permutations of the species list on all outputs",
+        text=("proof, partial: proved — density, element totals, the Stewart-Pyatt effective charge, the emission line sum and the atomic level sums are invariant "
+              "under permutation of the species (resp. level) list. NOT proved: equivariance of the reference-energy chains, of the converged solve and of the linear "
+              "transport solves; random permutations (incl. ion-before-parent orders) are compared on composition, species enthalpies and all scalar outputs."),
+        note="Trusted: as C02; tolerances as C04; electron-dependent conductivity compared above x_e=1e-7, emission when carried by resolved species.",
+        ref="§3-C05"),
 }
 
 NOT_YET = {}
